@@ -76,6 +76,13 @@ func Request() Profile {
 		ExplicitBody: true, Maps: true, Bytes: true, NoBodyVerbs: true, PrimPayloads: true, Errors: true, ParamHeavy: true}
 }
 
+// Errors is the C05 profile.
+func Errors() Profile {
+	return Profile{Name: "errors", MaxServices: 2, MaxMethods: 3, MaxFields: 4, Runtime: true,
+		Validations: true, Defaults: true, UserTypes: true, Aliases: true, MultiRoute: true, BasePaths: true,
+		Maps: true, PrimPayloads: true, Errors: true, CustomErrors: true, ParamHeavy: true}
+}
+
 // Response is the C03 profile.
 func Response() Profile {
 	return Profile{Name: "response", MaxServices: 2, MaxMethods: 3, MaxFields: 6, Runtime: true,
@@ -94,6 +101,8 @@ type G struct {
 	features map[string]bool
 	// inlineLevel: nesting depth of inline objects below the current root
 	inlineLevel int
+	// apiErrInService: the current service re-declares the API-level error
+	apiErrInService bool
 }
 
 // avoid reports whether the generator must steer away from an open finding;
